@@ -1,6 +1,7 @@
 """C14 — uncertainty propagates by first-order Gaussian rules for independent inputs."""
 from __future__ import annotations
 
+import math
 import operator
 from decimal import Decimal
 from fractions import Fraction
@@ -138,8 +139,12 @@ def run(ctx):
             if affine:
                 got = D(result.uncertainty.magnitude)
                 # rounding: the zero points (up to 500 K) expressed in the result's degrees set the float scale
-                rk = orc.ratio(ures, m.Unit._by_name["kelvin"])
-                scale = Decimal(500) / D((rk[0] + rk[1]) / 2) + abs(x) + abs(y)
+                # (the result unit with every scale replaced by the kelvin: its size relative to the result unit)
+                kelvin_version = m.One
+                for f_, e_ in ures.factors.items():
+                    kelvin_version = kelvin_version * ((m.Unit._by_name["kelvin"] if f_ in orc.offset_units or f_ is m.Unit._by_name.get("Rankine") else f_) ** e_)
+                rk = orc.ratio(ures.prefix * kelvin_version, ures) or (Fraction(1), Fraction(1))
+                scale = Decimal(500) * D((rk[0] + rk[1]) / 2) + abs(x) + abs(y)
                 if abs(got - sigma) > sigma * Decimal("1e-6") + scale * Decimal("1e-12"):
                     ctx.violation(f"C14:{label}:wrong-uncertainty:scale-with-zero-point",
                                   f"{label}: {left!r} and {right!r}: uncertainty {result.uncertainty.magnitude!r} {ures}, first-order propagation gives {core.sf(sigma)!r} "
@@ -295,6 +300,12 @@ def run(ctx):
         ua, ub = rng.choice(scale_units), rng.choice(scale_units)
         if rng.random() < 0.2:
             ua = pools.prefixes[rng.choice(["milli", "kilo"])] * ua
+        if rng.random() < 0.4:
+            # a rate of change or a specific heat: the scale sits inside a compound unit (degC/min, J/(kg*degF))
+            U_ = m.Unit._by_name
+            wrap = rng.choice([lambda t: t / U_["minute"], lambda t: t / U_["second"], lambda t: U_["joule"] / (U_["kilogram"] * t), lambda t: t * U_["meter"]])
+            ua, ub = wrap(ua), wrap(ub)
+            ctx.count("cells/temperature/compound_units_around_a_scale")
         x, y = rng.choice([300, 20, -40, 273.15, 0, 451.5, Decimal("36.6")]), rng.choice([10, 50, -5.5, 0, 491.67, Decimal("2.5")])
         sx, sy = rng.choice([0, 0.3, 0.5, 2]), rng.choice([0, 0.4, 1.8, 0.01])
         if isinstance(x, Decimal):
@@ -324,6 +335,28 @@ def run(ctx):
         except (CNF, TypeError, m.FractionalDimensionError, ZeroDivisionError, OverflowError, ArithmeticError):
             ctx.count(f"no_answer/temperature/{opname}")
 
+    # a scale with a zero point that is not a temperature: gauge pressure against absolute pressure, declared by the
+    # user with Dimension.scale; the degree is the same size, so sigma is the plain quadrature sum
+    try:
+        psi = m.Unit._by_name["pounds per square inch"]
+        gauge = psi.dimension.scale(rng.choice([14.7, 14.696]) * psi, f"zqc14gauge{ctx.shard}", f"zqc14psig{ctx.shard}")
+        for _ in range(40 if ctx.tier == "quick" else 2000):
+            ctx.count("evaluations")
+            ctx.count("cells/user_scale_in_another_dimension")
+            x, y = rng.choice([30, 0, 100.5, -5]), rng.choice([14.7, 50, 0.25])
+            sx, sy = rng.choice([0, 0.5, 2]), rng.choice([0, 0.4, 1.5])
+            (ul_, ur_) = rng.choice([(gauge, psi), (psi, gauge), (gauge, gauge)])
+            A, B_ = Mt(Q(x, ul_), sx), Mt(Q(y, ur_), sy)
+            state["case"] = {"op": "add/sub", "left": repr(A), "right": repr(B_), "user_scale": True}
+            for label, res in (("__add__", A + B_), ("__sub__", A - B_), ("__radd__", A.measurand + B_), ("__rsub__", A.measurand - B_)):
+                want = math.hypot(sx if "r" not in label[2:4] else 0.0, sy)
+                got = core.sf(res.uncertainty.magnitude)
+                ctx.distinct(("user-scale", label, str(ul_), str(ur_), bool(sx), bool(sy)), bool(sx) or bool(sy))
+                if abs(got - want) > 1e-9 * max(1.0, want) + 1e-9:
+                    ctx.violation(f"C14:{label}:wrong-uncertainty:scale-with-zero-point",
+                                  f"{label}: {A!r} and {B_!r} (gauge against absolute pressure): uncertainty {got!r}, first-order propagation gives {want!r}", state["case"])
+    except KeyError:
+        ctx.count("user_scale_section_skipped")
     n = ctx.scale(40000, 1_000_000) // 2
     ops = [("add", operator.add), ("sub", operator.sub), ("mul", operator.mul), ("truediv", operator.truediv), ("pow", None)]
     for i in range(n):
